@@ -46,7 +46,17 @@ def guard(fn, *args, **kwargs):
             if os.sep + 'algopy' + os.sep in fr.filename:
                 where = ' at %s:%d' % (os.path.basename(fr.filename), fr.lineno)
                 break
-        raise Violation('raised %s%s: %s' % (type(e).__name__, where, str(e)[:300]))
+        msg = str(e)
+        if 'Traceback (most recent call last)' in msg:
+            # the tracer wraps the original exception text + traceback into a plain Exception
+            lines = [l for l in msg.strip().splitlines() if l.strip()]
+            inner = [l for l in lines if l.startswith('  File ') and (os.sep + 'algopy' + os.sep) in l]
+            loc = ''
+            if inner:
+                parts = inner[-1].split(',')
+                loc = ' [%s:%s]' % (os.path.basename(parts[0].split('"')[1]), parts[1].strip().replace('line ', ''))
+            msg = lines[0][:80] + ' ... ' + lines[-1][:220] + loc
+        raise Violation('raised %s%s: %s' % (type(e).__name__, where, msg[:400]))
 
 
 class Stats:
